@@ -61,7 +61,7 @@ def run(ctx):
     from props import gdbbase
     gdbbase.gdb_batch(ctx, rep, relevant('C06'), ctx.pick(40, 400), 1000303)
     # ... and as a real process in file mode
-    sessbase.process_batch(ctx, rep, ['msg'], ctx.pick(12, 120), 1000403)
+    sessbase.process_batch(ctx, rep, ['msg', 'none', 'counts'], ctx.pick(12, 120), 1000403)
     return rep
 
 
